@@ -732,6 +732,30 @@ def numpy_function_forms(tree):
     return count[0]
 
 
+def conditional_expressions(tree):
+    """if c: x = A else: x = B   ->   x = A if c else B          if c: return A else: return B   ->   return A if c else B
+    (both arms exactly one plain assignment to the same name, or one return with a value)"""
+    count = [0]
+
+    class T(ast.NodeTransformer):
+        def visit_If(self, n):
+            self.generic_visit(n)
+            if len(n.body) == 1 and len(n.orelse) == 1:
+                a, b = n.body[0], n.orelse[0]
+                if isinstance(a, ast.Assign) and isinstance(b, ast.Assign) and len(a.targets) == 1 and len(b.targets) == 1 and isinstance(a.targets[0], ast.Name) \
+                        and isinstance(b.targets[0], ast.Name) and a.targets[0].id == b.targets[0].id:
+                    count[0] += 1
+                    return ast.copy_location(ast.Assign(targets=[a.targets[0]], value=ast.IfExp(test=n.test, body=a.value, orelse=b.value), lineno=n.lineno), n)
+                if isinstance(a, ast.Return) and isinstance(b, ast.Return) and a.value is not None and b.value is not None:
+                    count[0] += 1
+                    return ast.copy_location(ast.Return(value=ast.IfExp(test=n.test, body=a.value, orelse=b.value)), n)
+            return n
+    for fn in [x for x in ast.walk(tree) if isinstance(x, (ast.FunctionDef, ast.AsyncFunctionDef))]:
+        fn.body = [T().visit(st) for st in fn.body]
+    ast.fix_missing_locations(tree)
+    return count[0]
+
+
 def transformed_copy(mode, suffix="_q"):
     """a scratch copy of the analysed tree (VERIF_REPO_ROOT or /repo) with one transformation applied everywhere; (path, number of rewrites)"""
     src_root = os.environ.get("VERIF_REPO_ROOT", "/repo")
@@ -782,7 +806,7 @@ def transformed_copy(mode, suffix="_q"):
                 total += k
             continue
         k = {"hoist-returns": hoist_returns, "name-arguments": name_arguments, "unelse": unelse, "else-after-exit": else_after_exit,
-             "flip-comparisons": flip_comparisons, "inline-temps": inline_temps, "swap-arms": swap_arms, "generators-for-lists": generators_for_lists, "swap-products": swap_products, "numpy-function-forms": numpy_function_forms, "rename-comprehension-variables": rename_comprehension_variables, "loops-for-comprehensions": loops_for_comprehensions,
+             "flip-comparisons": flip_comparisons, "inline-temps": inline_temps, "swap-arms": swap_arms, "generators-for-lists": generators_for_lists, "swap-products": swap_products, "conditional-expressions": conditional_expressions, "numpy-function-forms": numpy_function_forms, "rename-comprehension-variables": rename_comprehension_variables, "loops-for-comprehensions": loops_for_comprehensions,
              "name-tests": name_tests}.get(mode, lambda t: rename_locals(t, suffix))(tree)
         if k:
             open(path, "w").write(ast.unparse(tree) + "\n")
@@ -799,7 +823,7 @@ def main():
     if "--only" in sys.argv:
         only = sys.argv[sys.argv.index("--only") + 1].split(",")
     mode = "rename-locals"
-    for m_ in ("hoist-returns", "name-arguments", "unelse", "else-after-exit", "flip-comparisons", "keyword-arguments", "inline-temps", "swap-arms", "generators-for-lists", "name-tests", "swap-products", "loops-for-comprehensions", "rename-comprehension-variables", "alias-attributes", "numpy-function-forms", "combined-2", "combined"):
+    for m_ in ("hoist-returns", "name-arguments", "unelse", "else-after-exit", "flip-comparisons", "keyword-arguments", "inline-temps", "swap-arms", "generators-for-lists", "name-tests", "swap-products", "loops-for-comprehensions", "rename-comprehension-variables", "alias-attributes", "numpy-function-forms", "conditional-expressions", "combined-2", "combined"):
         if "--" + m_ in sys.argv:
             mode = m_
     out = tempfile.mkdtemp(prefix="batchie-verif-alpha-out-", dir="/var/tmp")
